@@ -325,6 +325,13 @@ for _p in ('C14', 'C10'):
     PROPS[_p]['contracts'] = PROPS[_p]['contracts'] + BASE
     PROPS[_p]['tables'] = PROPS[_p]['tables'] + ['value-funnel']
 PROPS['C12']['contracts'] = PROPS['C12']['contracts'] + BASE[1:]
+# SET OF / SEQUENCE OF ANY: wrapping is decided per element (C18-m8b)
+for _p in ('C18', 'C01'):
+    PROPS[_p]['contracts'] = PROPS[_p]['contracts'] + [(E, 'ber.encoder::SequenceOfEncoder._encodeComponents[value-object,any-size,wrap-type]')]
+# the caller's openTypes map is only read (C12-m8b)
+PROPS['C12']['contracts'] = PROPS['C12']['contracts'] + [
+    (D, 'ber.decoder::ConstructedPayloadDecoderBase.valueDecoder@open-types[any-size]'),
+    (D, 'ber.decoder::ConstructedPayloadDecoderBase.indefLenValueDecoder@open-types[any-size]')]
 # comparison of a valueless scalar fails with the library's error, also with itself
 PROPS['C19']['contracts'] = PROPS['C19']['contracts'] + [(BS, 'type.base::SimpleAsn1Type.__eq__')]
 TG = 'contracts.tag'
@@ -446,6 +453,8 @@ BITS_CONSTRUCTED = [(D, 'ber.decoder::BitStringPayloadDecoder.valueDecoder[const
                     (D, 'ber.decoder::BitStringPayloadDecoder.indefLenValueDecoder[complete]')]
 for _p in ('C09', 'C01', 'C08', 'C02'):
     PROPS[_p]['contracts'] = PROPS[_p]['contracts'] + BITS_CONSTRUCTED
+# C15: the constructed form is taken only where the codec supports it (`#exit.only-if-supported`), also with no segments
+PROPS['C15']['contracts'] = PROPS['C15']['contracts'] + BITS_CONSTRUCTED[:1]
 UB = 'contracts.univ_bits'
 FROM_OCTETS = [(UB, 'type.univ::BitString.fromOctetString[internal]')]
 for _p in ('C09', 'C01'):
@@ -455,6 +464,12 @@ ANY_GUIDED = [(UN, 'ber.decoder::AnyPayloadDecoder.indefLenValueDecoder[untagged
               (UN, 'ber.decoder::AnyPayloadDecoder.valueDecoder[guided-by-tagmap,complete]')]
 for _p in ('C18', 'C13'):
     PROPS[_p]['contracts'] = PROPS[_p]['contracts'] + ANY_GUIDED
+# an indefinite-length element collected for an enclosing ANY keeps its own end-of-octets (C02-m8a): CER wraps every
+# constructed value that way
+for _p in ('C18', 'C02', 'C01', 'C09'):
+    PROPS[_p]['contracts'] = PROPS[_p]['contracts'] + [
+        (UN, 'ber.decoder::AnyPayloadDecoder.indefLenValueDecoder[untagged,as-fragment,complete]')] + \
+        ([ANY_GUIDED[0]] if _p in ('C02', 'C01') else [])
 NATIVE_DEC = [(UN, 'native.decoder::SequenceOrSetPayloadDecoder.__call__'), (UN, 'native.decoder::SequenceOfOrSetOfPayloadDecoder.__call__'),
               (UN, 'native.decoder::ChoicePayloadDecoder.__call__')]
 PROPS['C17']['contracts'] = PROPS['C17']['contracts'] + NATIVE_DEC
